@@ -2,7 +2,10 @@
 
 proof : Properties/C21.v (finite-domain table theorem over the class tables, message /
         debug-string shape, logging statements incl. the refuted "every failure is logged")
-tie   : T1  gen/undef_tables.py regenerates the class tables (alias assignments, overrides in
+tie   : T5  gen/undef_translate.py translates every method body of the five classes, _undefined_message and
+            DebugUndefined.__str__ into deep-embedding terms (Lib/UndefPy.v); build/C21/Gen_undefsrc.v proves
+            interpreted body = kind_sem <table kind>, message program = message, __str__ program = debug_str;
+        T1  gen/undef_tables.py regenerates the class tables (alias assignments, overrides in
             make_logging_undefined, test_defined / test_undefined / do_default) from
             $VERIF_REPO/src with `ast`; build/C21/Gen_undef.v re-proves the table theorem and
             the logging statements about the REGENERATED tables (coqc, vm_compute);
@@ -592,6 +595,19 @@ def run(ctx):
         ctx.obligation_names.append("Gen_undef (regenerated, 3)")
         ctx.broken.append(f"translator gen/undef_tables.py does not recognise the source: {e}")
         table_lines = snapshot
+    # T5 tie: every method body of the undefined classes, translated into Lib/UndefPy terms, is proved equal to
+    # the meaning (kind_sem) of the kind the class table gives it; _undefined_message and DebugUndefined.__str__
+    # are proved equal to message / debug_str
+    import undef_translate
+    try:
+        vtext, n_eq = undef_translate.emit(lib.SRC)
+        ok, out = ctx.coq_obligation("Gen_undefsrc", vtext, n_obligations=n_eq)
+        if ok:
+            ctx.trusted.append("Gen_undefsrc (source = model equations): " + " ".join(out.split()))
+    except undef_translate.Untranslatable as e:
+        ctx.obligations += 22
+        ctx.obligation_names.append("Gen_undefsrc (regenerated, 22)")
+        ctx.broken.append(f"translator gen/undef_translate.py: a method of the undefined classes left the translatable vocabulary: {e}")
     w = World(jinja2)
     cells = []
     for c in CLASSES:
